@@ -1024,7 +1024,11 @@ struct Runner {
           {
             // the shared grant must have been taken at an instant when the lock was completely free: no other ghost grant
             // (each contained in a real grant) may cover the event that took it
-            const int holder = other_holder_at(L, dsim::watched_write_seq());
+            // (every write of the call to the lock object is looked at: whichever of them took the grant, it must not be covered)
+            uint64_t ws[8];
+            const int nw = dsim::watched_write_seqs(ws, 8);
+            int holder = nw > 0 ? 0 : -1;
+            for (int i = 0; i < nw && holder >= 0; ++i) holder = other_holder_at(L, ws[i]);
             if (holder >= 0) {
               ORACLE("[C13]", "prepare-read-stacked-shared-grant", " :: PrepareRead of vt%d took its shared grant on lock %d at event %lu while vt%d held a grant",
                      dsim::self(), L.idx, static_cast<unsigned long>(dsim::watched_write_seq()), holder);
